@@ -567,11 +567,19 @@ func (cs *ConsensusState) reconstructLastCommit(state *sm.State) {
 	}
 	seenCommit := cs.blockStore.LoadSeenCommit(state.LastBlockHeight)
 	lastPrecommits := types.NewVoteSet(cs.config.GetString("chain_id"), state.LastBlockHeight, seenCommit.Round(), types.VoteTypePrecommit, state.LastValidators)
-	for _, precommit := range seenCommit.Precommits {
+	for idx, precommit := range seenCommit.Precommits {
 		if precommit == nil {
 			continue
 		}
-		added, err := lastPrecommits.AddVote(precommit)
+		// A commit is verified slot by slot (ValidatorSet.VerifyCommit checks precommit i against
+		// validator i). The index and address fields of a precommit are not covered by its
+		// signature; in a seen commit that was received during fast sync they are whatever the
+		// peer sent. The slot says who signed.
+		vote := precommit.Copy()
+		if addr, val := state.LastValidators.GetByIndex(idx); val != nil {
+			vote.ValidatorIndex, vote.ValidatorAddress = idx, addr
+		}
+		added, err := lastPrecommits.AddVote(vote)
 		if !added || err != nil {
 			gcmn.PanicCrisis(gcmn.Fmt("Failed to reconstruct LastCommit: %v", err))
 		}
